@@ -24,6 +24,91 @@ LEVEL_TEXT = (
 REMOVAL = re.compile(r"^del self\._handlers\b|self\._handlers(\[[^\]]+\])?\.(pop|remove|discard|clear|popitem)\(")
 
 
+COPY = r"(?:list|tuple|set|frozenset)\(%s\)|%s\.copy\(\)|%s"
+
+
+def _all_of(text: str, base: str) -> bool:
+    """`text` is the collection `base` or an eager copy of it."""
+    b = re.escape(base)
+    return re.fullmatch(COPY % (b, b, b), text) is not None
+
+
+def built_list(evs, name: str):
+    """Provenance of a list built on the path as `name = []` followed by one loop that appends once per iteration (the engine runs a
+    list comprehension with followed calls as exactly that): (iterated text, [appended texts per normal body path]) or None."""
+    start = None
+    for i, e in enumerate(evs):
+        if e.kind == "assign" and e.extra.get("name") == name and (e.text.endswith("= []") or e.text.endswith("= list()")):
+            start = i
+    if start is None:
+        return None
+    loops = [e for e in evs[start:] if e.kind == "loop" and any(x.kind == "call" and x.extra.get("func") == f"{name}.append" for b in e.extra["paths"] for x in b.evs)]
+    stray = [e for e in evs[start:] if e.kind == "call" and e.extra.get("func", "").startswith(f"{name}.") and e.extra.get("func") != f"{name}.append"]
+    top_apps = [e for e in evs[start:] if e.kind == "call" and e.extra.get("func") == f"{name}.append"]
+    if len(loops) != 1 or stray or top_apps:
+        return None
+    L = loops[0]
+    items = []
+    for b in L.extra["paths"]:
+        if b.outcome[0] == "raise":
+            continue
+        apps = [x for x in b.evs if x.kind == "call" and x.extra.get("func") == f"{name}.append"]
+        if len(apps) != 1 or b.outcome not in (NORMAL, ("continue",)):
+            return None
+        items.append((apps[0].extra.get("args") or [""])[0])
+    return L.text, items
+
+
+def covers_all_emitters(evs, text: str) -> bool:
+    """The iterated collection holds every emitter of the observer: the emitter set, the values of the emitter map, a copy of
+    either, or a list built on this path from every key of the emitter map (each key's emitter looked up / popped) or from every
+    element of the emitter set."""
+    if _all_of(text, "self._emitters") or _all_of(text, "self._emitter_for_watch.values()"):
+        return True
+    if re.fullmatch(r"\w+", text):
+        got = built_list(evs, text)
+        if got is None:
+            return False
+        it, items = got
+        el = f"$elem({it})"
+        if (_all_of(it, "self._emitter_for_watch") or _all_of(it, "self._emitter_for_watch.keys()")) and it != "self._emitter_for_watch":
+            return bool(items) and all(x in (f"self._emitter_for_watch.pop({el})", f"self._emitter_for_watch[{el}]") for x in items)
+        if _all_of(it, "self._emitters") or _all_of(it, "self._emitter_for_watch.values()"):
+            return bool(items) and all(x == el for x in items)
+    return False
+
+
+def registry_emptied(ctx, rule: str, P, cfg, label: str = "BaseObserver.unschedule_all") -> None:
+    """unschedule_all() detaches *all* handlers: on every normal path the handler registry is emptied wholesale — clear(), a rebind to
+    a fresh empty container, or a loop over (a copy of) the registry's own keys that deletes each.  Deleting the entries of the
+    scheduled watches / of the watches that have an emitter is not that: add_handler_for_watch() registers handlers under any watch,
+    and a watch whose emitter failed to start keeps its handlers; those handlers would go on receiving the events of an equal watch
+    scheduled later (shared by C04 and C05)."""
+    fa = P.find_method("BaseObserver", "unschedule_all")
+    if fa is None:
+        raise AnalysisError("anchor vanished: BaseObserver.unschedule_all")
+    ok, msg, n = True, "", 0
+    for p in Enumerator(cfg).run(fa, selfcls="BaseObserver"):
+        if not (p.outcome is NORMAL or p.outcome[0] == "return"):
+            continue
+        n += 1
+        emptied = False
+        for e in p.evs:
+            if e.kind == "call" and e.extra.get("func") == "self._handlers.clear":
+                emptied = True
+            elif e.kind == "store" and e.extra.get("target") == "self._handlers" and re.fullmatch(r"\{\}|dict\(\)|defaultdict\(\w+\)|collections\.defaultdict\(\w+\)", e.extra.get("value", "")):
+                emptied = True
+            elif e.kind == "loop" and e.text != "self._handlers" and (_all_of(e.text, "self._handlers") or _all_of(e.text, "self._handlers.keys()")):
+                el = f"$elem({e.text})"
+                bodies = [b for b in e.extra["paths"] if b.outcome[0] != "raise"]
+                if bodies and all(any((x.kind == "del" and x.extra.get("container") == "self._handlers" and x.extra.get("key") == el) or (x.kind == "call" and x.extra.get("func") == "self._handlers.pop" and (x.extra.get("args") or [""])[0] == el) for x in b.flat()) for b in bodies):
+                    emptied = True
+        if not emptied:
+            removed = sorted({f"{x.text[:70]} (for each of `{e.text[:50]}`)" for e in p.evs if e.kind == "loop" for b in e.extra["paths"] for x in b.flat() if (x.kind == "del" and x.extra.get("container") == "self._handlers") or (x.kind == "call" and x.extra.get("func") == "self._handlers.pop")})
+            ok, msg = False, "a normal path of unschedule_all() does not empty the handler registry: " + (f"it removes only {removed}" if removed else "nothing is removed") + "; handlers registered under a watch outside that collection (add_handler_for_watch on an unscheduled watch, a watch whose emitter failed to start) stay registered and receive the events of an equal watch scheduled later"
+    ctx.check(ok and n > 0, rule, label, msg or "unschedule_all has no normal path", fa.loc)
+
+
 def run(ctx) -> None:
     P = ctx.P
     RS = ctx.rule("C05/same-lock", "every removal from the handler registry is made holding the lock that the dispatch site holds while calling handlers", floor=4)
@@ -34,7 +119,9 @@ def run(ctx) -> None:
         "reaches stop() of every emitter and then join() of every emitter; stop() reaches unschedule_all",
         floor=3,
     )
+    RE = ctx.rule("C05/unschedule-all-empties-the-registry", "on every normal path unschedule_all() empties the handler registry wholesale (clear / fresh container / a loop over the registry's own keys): every handler it is documented to detach is gone when it returns", floor=1)
     cfg = ThreadCfg(P, no_inline={"join", "is_alive", "dispatch", "queue_events", "BaseThread.start"}, follow_attrs=False)
+    registry_emptied(ctx, RE, P, cfg)
     res, npaths = guarded_by(P, "BaseObserver", FIELDS, "self._lock", [e for e in observer_entries(P, "BaseObserver") if e not in ("__init__",)], cfg)
     ctx.count("paths", npaths)
     seen = set()
@@ -110,7 +197,7 @@ def run(ctx) -> None:
                     if cleared and "self._emitters" in e.text:
                         order_ok = False  # iterating the collection after it was emptied: nothing is stopped / joined
                     it = e.text
-                    if "self._emitters" not in it:
+                    if not covers_all_emitters(p.evs, it):
                         continue
                     body = e.extra["paths"]
                     bs = all(any(x.kind == "call" and re.fullmatch(r"\$elem\(.*\)\.stop", x.extra.get("func", "")) for x in b.evs) for b in body if b.outcome in (NORMAL, ("continue",)))
